@@ -202,13 +202,40 @@ func genScript(r *rand.Rand, kind string) []Op {
 		for i := 0; i < 3+r.Intn(5); i++ {
 			s = append(s, Op{Op: "add", D: (1+r.Intn(maxSlot))*4 + r.Intn(3)})
 		}
-		for i := 0; i < 1+r.Intn(2); i++ {
-			s = append(s, Op{Op: "advadd", Dt: 1 + r.Intn(2), D: (r.Intn(maxSlot+2))*4 + r.Intn(3)})
+		var added []int
+		for _, o := range s {
+			if o.Op == "add" {
+				added = append(added, o.D)
+			}
+		}
+		for i := 0; i < 1+r.Intn(3); i++ {
+			d := (r.Intn(maxSlot+2))*4 + r.Intn(3)
+			if len(added) > 0 && r.Intn(10) < 7 {
+				d = added[r.Intn(len(added))] // re-register a duty that may be pending and already due
+			}
+			s = append(s, Op{Op: "advadd", Dt: 1 + r.Intn(3), D: d})
 			if r.Intn(2) == 0 {
 				s = append(s, Op{Op: "read", N: 1 + r.Intn(3)})
 			}
 		}
 		s = append(s, Op{Op: "adv", Dt: 10})
+	case "duerace": // several duties share a deadline; one of them is re-registered at the instant the deadline is reached, racing the timer
+		slot := 1 + r.Intn(4)
+		k := 2 + r.Intn(4)
+		var ds []int
+		for i := 0; i < k; i++ {
+			d := slot*4 + i%3
+			if i >= 3 {
+				d = (slot-1)*4 + i%3 // an earlier deadline as well
+			}
+			ds = append(ds, d)
+			s = append(s, Op{Op: "add", D: d})
+		}
+		s = append(s, Op{Op: "advadd", Dt: slot, D: ds[r.Intn(len(ds))]})
+		if r.Intn(2) == 0 {
+			s = append(s, Op{Op: "advadd", Dt: 0, D: ds[r.Intn(len(ds))]})
+		}
+		s = append(s, Op{Op: "read", N: 10}, Op{Op: "adv", Dt: 3})
 	case "far": // deadlines hours away, large clock steps: nothing may be reported before its deadline however long the wait
 		k := 2 + r.Intn(5)
 		var slots []int
@@ -311,6 +338,8 @@ func TestGen(t *testing.T) {
 			kind = "race"
 		case x == 4:
 			kind = "far"
+		case x == 5:
+			kind = "duerace"
 		}
 		hs = append(hs, History{ID: len(hs), Kind: kind, Script: genScript(r, kind)})
 	}
